@@ -36,6 +36,13 @@ def shards(tier):
 def make_schema(r, i):
     decls = cansch.gen_can_schema(r, prefix="D%d" % i, max_bindings=4, flat=True, buses=True, big_endian=False, mux=False, devices=True,
                                   enum_maxes=[1, 2, 3, 5, 7, 200, 300])
+    if i % 4 == 2:
+        # device / bus names with characters that are not legal in identifiers (they are strings in the
+        # schema; whatever a generator derives from them must not depend on the process)
+        odd = {"ecu": "ecu-1", "bms": "bms.front", "inv": "inv 2", "dash": "dash+rear", "can0": "can-0", "pt": "p.t", "x1": "x 1"}
+        for d in decls:
+            if d["kind"] == "impl":
+                d["items"] = [(it[0], it[1], ("s", odd.get(it[2][1], it[2][1]))) if it[0] == "field" and it[1] in ("device", "bus") else it for it in d["items"]]
     structs = [d["name"] for d in decls if d["kind"] == "struct"]
     # a second protocol on some struct, services for the cpp generator
     decls.append({"kind": "impl", "protocol": r.choice(["uart", "lin", "eth"]), "type": structs[0], "name": None, "items": [("field", "id", 1)]})
@@ -43,7 +50,8 @@ def make_schema(r, i):
         decls.append({"kind": "impl", "protocol": r.choice(["spi", "usb"]), "type": structs[-1], "name": "Alt%d" % i, "items": [("field", "port", 2)]})
     if i % 3 == 1:
         # protocol names that differ only in spelling style are different protocols (different files)
-        a, b = r.choice([("canFd", "can_fd"), ("Uart", "uart"), ("flexRay", "flex_ray"), ("LIN", "lin")])
+        pairs = [("canFd", "can_fd"), ("Uart", "uart"), ("flexRay", "flex_ray"), ("LIN", "lin"), ("Eth", "eth"), ("spiBus", "spi_bus")]
+        a, b = pairs[(i // 3) % len(pairs)]
         decls.append({"kind": "impl", "protocol": a, "type": structs[0], "name": "StyleA%d" % i, "items": [("field", "k", 1)]})
         decls.append({"kind": "impl", "protocol": b, "type": structs[-1], "name": "StyleB%d" % i, "items": [("field", "k", 2)]})
     if r.random() < 0.7:
